@@ -63,6 +63,10 @@ Theorem C08_geo_stream bs stream hf cs : gchunks_of bs stream = Some (hf, cs) ->
   Forall (chunk_ok hf) cs /\ map (abs_chunk hf) cs = chunks_of bs stream.
 Proof. exact (gchunks_of_refines bs stream hf cs). Qed.
 
+(* ... and for block sizes below 2^62 the arena's capacity arithmetic never panics, so a pump always returns *)
+Theorem C08_geo_pump_never_panics bs h k s : (N.of_nat bs + 2 <= 4611686018427387904)%N -> exists r, gpump bs h k s = Some r.
+Proof. exact (gpump_no_panic bs h k s). Qed.
+
 Example C08_geo_example :
   match gchunks_of 1 [1; 97; 254; 253; 2; 98; 99]%N with
   | Some (hf, cs) => map (abs_chunk hf) cs = [Data 2 [1; 97]%N; Sentinel 4; Data 6 [2; 98]%N; Data 7 [99]%N; Eof]
@@ -84,3 +88,4 @@ Print Assumptions C08_pump_spec.
 Print Assumptions C08_refill_schedule_independent.
 Print Assumptions C08_geo_pump_refines.
 Print Assumptions C08_geo_stream.
+Print Assumptions C08_geo_pump_never_panics.
